@@ -1,6 +1,6 @@
 SPECIFICATION Spec
 INVARIANT OnlyTheNegotiatedHandler NoHandlerWithoutPass RetryNeedsValidatedAccept EstablishedReachesHandler FilterAcceptReaches
-INVARIANT EstablishedOnlyIfAllAccept AcceptOnlyIfAllAccept BeforeRejectStops PreconditionsGate ShortCircuit RejectCodeSeen ClosedGate Decided
+INVARIANT EstablishedOnlyIfAllAccept AcceptOnlyIfAllAccept BeforeRejectStops PreconditionsGate ShortCircuit RejectCodeSeen ClosedGate PathsWellFormed Decided
 INVARIANT Emit
 CHECK_DEADLOCK FALSE
 CONSTANT Scenarios <- FamJson
